@@ -114,16 +114,14 @@ theorem updateGenerators_spec' (g : Grid) (hI : GridInv g) (he : g.st.empty = fa
     · rw [h2, hsem]
     · rw [hsem]; simp [h3]
 
-/-- the statement shape of `ProofsGridOpsDefs.lean` with the precondition "generators out of date" added -/
-def UpdateGeneratorsSpec' : Prop :=
-  ∀ g, GridInv g → g.st.empty = false → 0 < g.spaceDim → g.st.cUp = true → g.st.gUp = false →
-    let r := updateGenerators g
-    GridInv r.1 ∧ r.1.sem = g.sem ∧ r.1.spaceDim = g.spaceDim ∧ (r.2 = true ↔ (g.sem).Nonempty) ∧
-    (r.2 = true → r.1.st.empty = false ∧ r.1.st.gUp = true ∧ r.1.st.gMin = true ∧ r.1.st.cUp = true ∧ r.1.st.cMin = true) ∧
-    (r.2 = false → r.1.st.empty = true)
-
-theorem updateGenerators_spec : UpdateGeneratorsSpec' := fun g hI he hpos hc hg =>
+theorem updateGenerators_spec : UpdateGeneratorsSpec := fun g hI he hpos hc hg =>
   updateGenerators_spec' g hI he hpos hc hg
+
+/-- the hypotheses are satisfiable: `x ≡ 1 (mod 2)` given by congruences only; the point `1`, the parameter `2` -/
+example :
+    let g : Grid := Grid.mk 1 { cUp := true } 1 [⟨[-1, 1], 2⟩] 1 [] []
+    invB g = true ∧ (updateGenerators g).1.gen = [⟨false, [1, 1, 0]⟩, ⟨false, [0, 2, 1]⟩] ∧
+      (updateGenerators g).2 = true := by decide +kernel
 
 /-- the counterexample to the statement without "generators out of date": `2ℤ` with congruences
     `x ≡ 0 (mod 2)`, `1 ≡ 0 (mod 1)` flagged minimized (lower triangular, but the moduli differ), generators up to
